@@ -121,6 +121,11 @@ func K(m map[string]int) int {
 	}
 	return n
 }
+
+// diagnostics whose text quotes source containing formatting verbs
+func P(x, s, d int) (int, bool, bool) {
+	return x % x, !(x%s == 0), !(x%d != x%d)
+}
 `
 
 type c08Cfg struct {
